@@ -138,6 +138,65 @@ static void hint_prog()
     pmc_outcome("h=%d", h);
 }
 
+// the same on a pool that is not the first one (its workers' global numbers differ from their local
+// numbers): default = 1 worker, "p" = 2 workers with a static policy
+template <int POLICY>
+static void second_pool(pika::resource::partitioner& rp, pika::program_options::variables_map const&)
+{
+    rp.create_thread_pool("p", POLICY == 0 ? pika::resource::scheduling_policy::static_ : pika::resource::scheduling_policy::static_priority);
+    int count = 0;
+    for (auto const& d : rp.sockets())
+        for (auto const& c : d.cores())
+            for (auto const& p : c.pus())
+                if (count++ >= 1) rp.add_resource(p, "p");
+}
+template <int POLICY>
+static void hint_second_pool_prog()
+{
+    int h = pmc_choose(2, 0);
+    int waker_where = pmc_choose(2, 0);    // 0: waker on the default pool, 1: on the other worker of "p"
+    static int phases[8];
+    static std::string pools[8];
+    static int nph, finished;
+    nph = finished = 0;
+    auto& ev = *new pika::experimental::event;
+    rt::config c;
+    c.workers = 3;
+    c.rp_callback = &second_pool<POLICY>;
+    rt::start(c);
+    auto sp = ex::thread_pool_scheduler{&pika::resource::get_thread_pool("p")};
+    auto sd = ex::thread_pool_scheduler{&pika::resource::get_thread_pool("default")};
+    pmc_watch(&ev, sizeof ev, "event");
+    auto mark = [&] { Where w = here(); pools[nph] = w.pool; phases[nph++] = w.local_worker; };
+    ex::execute(ex::with_hint(sp, pika::execution::thread_schedule_hint(h)), [&] {
+        rt::watch_self("hinted");
+        mark();
+        pika::this_thread::yield();
+        mark();
+        ev.wait();
+        mark();
+        pika::this_thread::yield();
+        mark();
+        ++finished;
+    });
+    auto waker = [&] {
+        rt::watch_self("waker");
+        pika::this_thread::yield();
+        ev.set();
+        ++finished;
+    };
+    if (waker_where == 0) ex::execute(sd, waker);
+    else ex::execute(ex::with_hint(sp, pika::execution::thread_schedule_hint(1 - h)), waker);
+    rt::stop();
+    PMC_ASSERT(finished == 2 && nph == 4, "not-run", "hinted task did not run all phases (%d)", nph);
+    for (int i = 0; i < nph; ++i)
+    {
+        PMC_ASSERT(pools[i] == "p", "wrong-pool", "phase %d of a task sent to pool 'p' ran on pool '%s'", i, pools[i].c_str());
+        PMC_ASSERT(phases[i] == h, "wrong-worker", "phase %d of the task hinted to worker %d of pool 'p' ran on its worker %d", i, h, phases[i]);
+    }
+    pmc_outcome("h=%d", h);
+}
+
 // std_thread_scheduler: a fresh non-pika thread
 static void std_thread_prog()
 {
@@ -165,15 +224,17 @@ int main(int argc, char** argv)
     static const char* sites = "set_thread_state|set_active_state|schedule_thread|create_thread|thread_pool_scheduler|schedule_from|scheduling_loop|select_active_pu";
     static const char* focus = "F-site (rmw, cas): set_thread_state/set_active_state, schedule_thread/create_thread of the schedulers, thread_pool_scheduler, schedule_from, scheduling_loop; F-addr: hinted task / waker state words and the event";
     static const pmc_spec specs[] = {
-        {"two_pools", pool_prog, 1, 2, 0.4, 0.4, 1, focus, sites, "rc"},
-        {"hint_static", hint_prog<0>, 1, 2, 0.25, 0.25, 1, focus, sites, "rc"},
-        {"hint_static_priority", hint_prog<1>, 1, 2, 0.25, 0.25, 1, focus, sites, "rc"},
+        {"two_pools", pool_prog, 1, 2, 0.3, 0.3, 1, focus, sites, "rc"},
+        {"hint_static", hint_prog<0>, 1, 2, 0.2, 0.2, 1, focus, sites, "rc"},
+        {"hint_static_priority", hint_prog<1>, 1, 2, 0.2, 0.15, 1, focus, sites, "rc"},
         {"std_thread_scheduler", std_thread_prog, 1, 2, 0.1, 0.1, 1, focus, sites, "rc"},
+        {"hint_second_pool_static", hint_second_pool_prog<0>, 1, 2, 0.15, 0.15, 1, focus, sites, "rc"},
+        {"hint_second_pool_static_priority", hint_second_pool_prog<1>, 0, 1, 0.05, 0.1, 1, focus, sites, "rc"},
     };
-    static const char* assumptions[] = {"sequentially consistent interleavings only", "pool layout default(2)+aux(1); static and static-priority policies with 2 workers"};
+    static const char* assumptions[] = {"sequentially consistent interleavings only", "pool layouts default(2)+aux(1) and default(1)+p(2, static policies); static and static-priority policies with 2 workers"};
     pmc_config cfg{};
     cfg.property_id = "C10";
-    cfg.rule = "pipelines over two pools {schedule/then/continues_on, execute, transfer_just, bulk, priorities, hints} x submitter inside/outside the runtime; hinted task with yields and a suspension on static policies x hint x waker placement (data choices) x all schedules within the deviation bound";
+    cfg.rule = "pipelines over two pools {schedule/then/continues_on, execute, transfer_just, bulk, priorities, hints} x submitter inside/outside the runtime; hinted task with yields and a suspension on static policies (single pool and second pool) x hint x waker placement (data choices) x all schedules within the deviation bound";
     cfg.assumptions = assumptions;
     cfg.n_assumptions = 2;
     cfg.warmup = rt::warmup;
